@@ -739,6 +739,13 @@ func registerTomlStubs(ex *Exec) {
 			okAny = smt.Or(okAny, oki)
 			isDecodeErr = smt.Or(isDecodeErr, smt.And(ci, smt.Eq(reg.kind, smt.Const(8, 1))))
 			isStrictErr = smt.Or(isStrictErr, smt.And(ci, smt.Eq(reg.kind, smt.Const(8, 2))))
+			if crash := smt.And(ci, smt.Eq(reg.kind, smt.Const(8, 4))); !crash.IsFalse() {
+				ex.panicOutcome(st, "the TOML decoder panicked (value of a kind it cannot assign, e.g. a date where a number is expected)", site, smt.And(st.pc, crash))
+				st.assume(smt.Not(crash))
+				if st.dead {
+					return nil
+				}
+			}
 			src, ok := reg.val.(*PtrV)
 			if !ok {
 				panic(unsupported("registered decoded value is not a pointer"))
@@ -765,6 +772,15 @@ func registerTomlStubs(ex *Exec) {
 			fail = smt.Not(smt.Eq(ex.DecodeFailKind, smt.Const(8, 0)))
 			isDecodeErr = smt.Eq(ex.DecodeFailKind, smt.Const(8, 1))
 			isStrictErr = smt.Eq(ex.DecodeFailKind, smt.Const(8, 2))
+			// 4: the library panics (go-toml v2.0.3 does, in reflect.Set, for e.g. a date where a number is expected)
+			crash := smt.Eq(ex.DecodeFailKind, smt.Const(8, 4))
+			if !crash.IsFalse() {
+				ex.panicOutcome(st, "the TOML decoder panicked (value of a kind it cannot assign, e.g. a date where a number is expected)", site, smt.And(st.pc, crash))
+				st.assume(smt.Not(crash))
+				if st.dead {
+					return nil
+				}
+			}
 		}
 		if ex.Decoded == nil {
 			panic(unsupported("toml decode without a registered decoded value (verifrt.TOMLBytes)"))
@@ -835,7 +851,7 @@ func registerTomlStubs(ex *Exec) {
 		S["(*github.com/pelletier/go-toml/v2.StrictMissingError)."+m] = func(ex *Exec, st *State, site ssa.Instruction, fn *ssa.Function, args []Value) Value {
 			return ex.withChoice(st, args[0], func(st *State, r Value) Value {
 				if _, isNil := r.(*NilV); isNil {
-					ex.outcome("panic", "nil pointer dereference (method "+m+" of a nil *toml.StrictMissingError)", site, st.pc)
+					ex.panicOutcome(st, "nil pointer dereference (method "+m+" of a nil *toml.StrictMissingError)", site, st.pc)
 					st.kill()
 					return nil
 				}
@@ -851,7 +867,7 @@ func registerTomlStubs(ex *Exec) {
 		S["(*github.com/pelletier/go-toml/v2.DecodeError)."+m] = func(ex *Exec, st *State, site ssa.Instruction, fn *ssa.Function, args []Value) Value {
 			return ex.withChoice(st, args[0], func(st *State, r Value) Value {
 				if _, isNil := r.(*NilV); isNil {
-					ex.outcome("panic", "nil pointer dereference (method "+m+" of a nil *toml.DecodeError)", site, st.pc)
+					ex.panicOutcome(st, "nil pointer dereference (method "+m+" of a nil *toml.DecodeError)", site, st.pc)
 					st.kill()
 					return nil
 				}
